@@ -151,6 +151,8 @@ def run(check):
         items.append((case, None, g))
     stats = {"accepted": 0, "rejected": 0, "returned_error": 0, "returned_output": 0, "crashes": 0, "rejected_classes": {}}
     with harness.Runner() as rn:
+        if not rn.hang_oracle_works():
+            check.fail_broken("the hang oracle (Go runtime deadlock report) does not fire in this build")
         out = rn.run_cases([c for c, _s, _g in items], per_case_timeout=60)
     by_id = {c["id"]: (c, g) for c, _s, g in items}
     for cid in sorted(out):
